@@ -126,7 +126,10 @@ def proj(o, ident=False):
     if isinstance(o, dict):
         return {str(k): P(v) for k, v in o.items()}
     if isinstance(o, Traps):
-        d = {"__class__": type(o).__name__, "coords": P(o.sorted_coords), "slug": o.slug,
+        # special layouts (TriangularLatticeLayout, ...) are RegisterLayouts with a constructor of
+        # their own; the format carries coordinates and slug only and == is defined on those
+        cname = "RegisterLayout" if isinstance(o, RegisterLayout) else type(o).__name__
+        d = {"__class__": cname, "coords": P(o.sorted_coords), "slug": o.slug,
              "hash": o.static_hash()}
         if isinstance(o, WeightMap):
             d["weights"] = P(o.sorted_weights)
@@ -209,6 +212,14 @@ def diff(a, b, path=(), owner=None):
 def all_diff_fields(a, b):
     """Top-level keys of two dict projections whose values differ."""
     return sorted(k for k in set(a) | set(b) if diff(a.get(k, "<absent>"), b.get(k, "<absent>")))
+
+
+def leaf_name(path):
+    """Last component of a difference path, with run-specific uuids masked (stable signatures)."""
+    if not path:
+        return ""
+    last = str(path[-1])
+    return "<uuid>" if len(last) == 36 and last.count("-") == 4 else last
 
 
 def short(x, n=300):
@@ -551,7 +562,7 @@ def compare_objects(out, cls, pt, orig, back, extra_sig=None, eq=True, strids=Fa
     if d is not None:
         path, owner, x, y = d
         sig.update({"field": str(next((p for p in path if isinstance(p, str)), "")),
-                    "leaf": str(path[-1]) if path else "", "owner": owner})
+                    "leaf": leaf_name(path), "owner": owner})
         out.report(sig, {"point": pt, "path": list(path), "original": short(x), "decoded": short(y)})
         return False
     if eq and not strids:
@@ -973,6 +984,15 @@ def noise_point(out, pt, do_json):
     if tuple(nm3.noise_types) != tuple(nm.noise_types):
         out.report({"clause": "simconfig_types", "dir": "noise->sim->noise"},
                    {"kwargs": short(kwargs), "back": list(nm3.noise_types), "noise_model": list(nm.noise_types)})
+    # an undefined waist is part of an active amplitude noise: it travels as inf and comes back as None
+    if "amplitude" in nm.noise_types and nm.laser_waist is None:
+        out.tests += 2
+        if not (isinstance(sc.laser_waist, float) and math.isinf(sc.laser_waist)):
+            out.report({"clause": "simconfig_param", "dir": "noise->sim", "param": "laser_waist"},
+                       {"kwargs": short(kwargs), "sim": sc.laser_waist, "noise_model": None})
+        if nm3.laser_waist is not None:
+            out.report({"clause": "simconfig_param", "dir": "noise->sim->noise", "param": "laser_waist"},
+                       {"kwargs": short(kwargs), "back": nm3.laser_waist, "noise_model": None})
     for p in rel:
         names = ["eff_noise_rates", "eff_noise_opers"] if p == "eff_noise" else [p]
         for name in names:
@@ -1171,7 +1191,7 @@ def alias_history(out, h):
             if d is not None:
                 path, owner, was, now = d
                 out.report({"clause": "frame", "op": op, "by_kind": kind, "changed_kind": ent[0],
-                            "owner": owner, "leaf": str(path[-1]) if path else ""},
+                            "owner": owner, "leaf": leaf_name(path)},
                            {"history": h, "step": step, "changed_object": j + 1, "path": list(path),
                             "before": short(was), "after": short(now)})
                 ent[2] = snap
